@@ -378,6 +378,26 @@ def run(ctx) -> None:
                         {"argv": argv, "without_config": out0, "with_empty_config": out1,
                          "how": "in an empty directory holding a.py (`x = 1`): python -m refurb <argv>; then `touch pyproject.toml` and run it again"},
                     )
+            # ---- a classifier is accepted in a list of the config file iff the command line accepts the same text after the
+            # matching option (the config reads every element through str()): ill-formed ids, TOML integers, booleans, floats
+            vals: list[Any] = [12, 7, 1234, -100, 0, 100, 999, True, False, 1.5, "12", "FURB12", "FURB1234", "furb123", "FURB123", "#", "#x", "XY123", "ABCDE123", "123 ", ""]
+            for key_ in ("ignore", "enable", "disable"):
+                for v_ in vals:
+                    lit = "true" if v_ is True else "false" if v_ is False else json.dumps(v_)
+                    (d / "pyproject.toml").write_bytes(f"[tool.refurb]\n{key_} = [{lit}]\n".encode())
+                    o_cfg = impl_load(["a.py"])
+                    (d / "pyproject.toml").write_bytes(b"")
+                    o_cli = impl_load(["a.py", f"--{key_}", str(v_)])
+                    res.bump("law:classifier-accepted-alike")
+                    if (o_cfg["r"] == "ok") != (o_cli["r"] == "ok") and law_viol < 6:
+                        law_viol += 1
+                        res.violate(
+                            f"`{key_} = [{lit}]` in [tool.refurb] is {'accepted' if o_cfg['r'] == 'ok' else 'refused'} while `--{key_} {str(v_)!r}` on the command line is {'accepted' if o_cli['r'] == 'ok' else 'refused'}",
+                            {"kind": "classifier-accepted-differently", "key": key_},
+                            {"config": f"[tool.refurb]\n{key_} = [{lit}]\n", "argv_with_config": ["a.py"], "argv_cli": ["a.py", f"--{key_}", str(v_)], "config_outcome": o_cfg, "cli_outcome": o_cli,
+                             "how": "a.py (`x = 1`) in an empty directory; once with that pyproject.toml and `python -m refurb a.py`, once with an empty pyproject.toml and the command-line form"},
+                        )
+            (d / "pyproject.toml").unlink(missing_ok=True)
             last = object()
             for (label, argv, raw), out0 in zip(cases, impl):
                 if out0["r"] == "ok" and out0["v"].get("enable_all") and out0["v"].get("disable_all") and law_viol < 6:
